@@ -76,8 +76,22 @@ class Check:
         viol = [o for o in self.obligations if o["status"] == "violated"]
         new = [o for o in viol if o["key"] not in known]
         kn = [o for o in viol if o["key"] in known]
-        rep_dir = os.path.join(VERIF, "reports", self.pid)
+        # runs against another tree (VERIF_REPO: self-tests on scratch copies) keep their reports and evidence apart, so that
+        # /verif/evidence always describes the last run on /repo itself
+        scratch = os.path.abspath(os.environ.get("VERIF_REPO", "/repo")) != "/repo"
+        self._out_root = os.path.join(VERIF, ".cache", "scratch-runs", str(os.getpid())) if scratch else VERIF
+        rep_dir = os.path.join(self._out_root, "reports", self.pid)
         os.makedirs(rep_dir, exist_ok=True)
+        if scratch:
+            import shutil
+            import time
+            base = os.path.join(VERIF, ".cache", "scratch-runs")
+            for d in os.listdir(base):
+                try:
+                    if time.time() - os.path.getmtime(os.path.join(base, d)) > 3600:
+                        shutil.rmtree(os.path.join(base, d), ignore_errors=True)
+                except OSError:
+                    pass
         for f in os.listdir(rep_dir):
             if replay_key is None:
                 try:
@@ -151,6 +165,7 @@ class Check:
             "wall_s": round(time.time() - self.t0, 2),
             "violations": n_new,
         }
-        os.makedirs(os.path.join(VERIF, "evidence"), exist_ok=True)
-        with open(os.path.join(VERIF, "evidence", f"{self.pid}.json"), "w") as f:
+        root = getattr(self, "_out_root", VERIF)
+        os.makedirs(os.path.join(root, "evidence"), exist_ok=True)
+        with open(os.path.join(root, "evidence", f"{self.pid}.json"), "w") as f:
             json.dump(ev, f, indent=1, default=str)
